@@ -190,21 +190,21 @@ func (r *Report) Finish() int {
 		ruleCounts[k] = v
 	}
 	cov := map[string]interface{}{
-		"obligations":        len(r.Obls),
-		"discharged":         discharged,
-		"known_findings":     len(r.Obls) - discharged - bad,
-		"rule_instances":     ruleCounts,
-		"rule_minimums":      r.MinCounts,
-		"samples":            samples,
-		"all_obligations":    r.Obls,
-		"analysed":           r.Analysed,
-		"checker_cmd":        fmt.Sprintf("bin/safecheck -p %s -tier %s", r.Property, r.Tier),
-		"trusted_base":       r.Trusted,
-		"not_decided":        r.NotDecided,
-		"explanation":        r.Explain,
-		"evaluations":        len(r.Obls),
+		"obligations":         len(r.Obls),
+		"discharged":          discharged,
+		"known_findings":      len(r.Obls) - discharged - bad,
+		"rule_instances":      ruleCounts,
+		"rule_minimums":       r.MinCounts,
+		"samples":             samples,
+		"all_obligations":     r.Obls,
+		"analysed":            r.Analysed,
+		"checker_cmd":         fmt.Sprintf("bin/safecheck -p %s -tier %s", r.Property, r.Tier),
+		"trusted_base":        r.Trusted,
+		"not_decided":         r.NotDecided,
+		"explanation":         r.Explain,
+		"evaluations":         len(r.Obls),
 		"distinct_nontrivial": distinctObls(r.Obls),
-		"rule":               "one evaluation = one rule instance (obligation) extracted from /repo's current source; distinct = distinct (rule, construct, detail) triples; all are non-trivial in the sense that each names a construct found in the tree on this run",
+		"rule":                "one evaluation = one rule instance (obligation) extracted from /repo's current source; distinct = distinct (rule, construct, detail) triples; all are non-trivial in the sense that each names a construct found in the tree on this run",
 	}
 	ev := map[string]interface{}{
 		"property_id": r.Property,
